@@ -483,9 +483,23 @@ func init() {
 					for _, tid := range tids {
 						at := xorAttrs[(port+ipi)%len(xorAttrs)]
 						do(c06Case{Kind: "xor", Attr: at, IP: ip, Port: port, TID: tid}, fmt.Sprintf("xor/ip%d", len(canonIP(ip))))
+						if c.Thorough() { // the full product with the attribute types
+							for _, at2 := range xorAttrs {
+								if at2 != at {
+									do(c06Case{Kind: "xor", Attr: at2, IP: ip, Port: port, TID: tid}, "xor/full-product")
+								}
+							}
+						}
 					}
 					at := mappedAttrs[(port+ipi)%len(mappedAttrs)]
 					do(c06Case{Kind: "mapped", Attr: at, IP: ip, Port: port, TID: tids[port%len(tids)]}, fmt.Sprintf("mapped/ip%d", len(canonIP(ip))))
+					if c.Thorough() {
+						for _, at2 := range mappedAttrs {
+							if at2 != at {
+								do(c06Case{Kind: "mapped", Attr: at2, IP: ip, Port: port, TID: tids[port%len(tids)]}, "mapped/full-product")
+							}
+						}
+					}
 				}
 			}
 			// every attribute type x a port subset x families x TIDs (the type axis in full)
@@ -545,6 +559,11 @@ func init() {
 			for code := 300; code <= 699; code++ {
 				for _, l := range []int{0, 1, 2, 3, 4, 5, 100, 763} {
 					do(c06Case{Kind: "errcode", Code: code, Len: l, TID: tids[2]}, "errcode")
+				}
+				if c.Thorough() {
+					for l := 6; l < 763; l++ {
+						do(c06Case{Kind: "errcode", Code: code, Len: l, TID: tids[2]}, "errcode/all-lengths")
+					}
 				}
 			}
 			// the same encoders after an encoding of a different attribute into another message (shared scratch state)
